@@ -1,10 +1,10 @@
-(** Completeness for fragment F1 (the key of a valid sequence; its acceptance is in Frag1Cons.v): every valid trial sequence of the reference
+(** Completeness for fragment F2 (the key of a valid sequence; its acceptance is in Frag1Cons.v): every valid trial sequence of the reference
     semantics is the candidate of an in-range key (constructed with the rank
     functions of the C13 bijections).  Proof file. *)
 From Coq Require Import ZArith List Bool Arith Lia.
 From SP Require Import Design.Flat Design.Layout Design.Sem Comb.CombModel Comb.CombSpec Random.Enum Random.Frag
-  Random.FragSem Random.RunLemmas Random.Frag0Enum Random.Frag0Decode Random.Frag0Sem Random.Frag0Valid.
-From SP Require Comb.PermProofs Comb.RadixProofs.
+  Random.FragSem Random.RunLemmas Random.FragPerm Random.Frag0Enum Random.Frag0Decode Random.Frag0Sem Random.Frag0Valid.
+From SP Require Comb.PermProofs Comb.RadixProofs Comb.PrefixProofs.
 Import ListNotations.
 Open Scope nat_scope.
 Set Default Proof Using "All".
@@ -109,12 +109,14 @@ Qed.
 
 Section F0C.
 Variable fb : flat.
-Hypothesis HF : frag1 fb = true.
+Hypothesis HF : frag2 fb = true.
 Hypothesis Hq : 0 < f0_q fb.
 
 Local Notation c := (the_crossing fb).
 Local Notation n := (length (fl_design fb)).
 Local Notation q := (f0_q fb).
+Local Notation C := (f0_C fb).
+Local Notation cws := (f0_cws fb).
 Local Notation T := (fl_trials fb).
 Local Notation lo := (f0_leftover fb).
 Local Notation R := (f0_rounds fb).
@@ -122,8 +124,8 @@ Local Notation prod := (f0_cprod fb).
 Local Notation ubi := (f0_ubi fb).
 Local Notation S0 := (code_sem fb).
 
-Lemma T_split : T = R * q + lo.
-Proof. unfold f0_rounds, f0_leftover. pose proof (Nat.div_mod_eq T q). lia. Qed.
+Lemma T_split : T = R * C + lo.
+Proof. unfold f0_rounds, f0_leftover. pose proof (Nat.div_mod_eq T C). lia. Qed.
 
 Variable s : tseq.
 Hypothesis Hv : valid_b S0 s = true.
@@ -245,22 +247,43 @@ Qed.
 Definition slice_perm (a tc : nat) : list Z := map (fun combo => Z.of_nat (index_of combo prod)) (slice a tc).
 Definition zlevels (g a tc : nat) : list Z := map (fun t' => Z.of_nat (nindex (lvl g (a + t')) (f0_L fb g))) (seq 0 tc).
 
+(** the multiplicity of a combination in a round *)
+Definition mult_of (j : nat) : nat := f0_cw fb (nth j prod []) * the_weight fb.
+
 Definition round_comp (a tc : nat) : comp :=
-  (perm_rank (Z.of_nat q) (slice_perm a tc),
-   zeros (if tc =? q then q else tc),
+  (p_R cws (slice_perm a tc),
+   zeros tc,
    map (fun g => comb_rank (Z.of_nat (length (f0_L fb g))) (zlevels g a tc)) ubi).
 
-Lemma slice_perm_spec a tc : a + tc <= T -> NoDup (slice a tc) ->
-  length (slice_perm a tc) = tc /\ injective_below (Z.of_nat q) (slice_perm a tc) /\
+Lemma count_sym_index (blk : list (list nat)) j : j < q -> (forall x, In x blk -> In x prod) ->
+  count_sym (map (fun combo => Z.of_nat (index_of combo prod)) blk) (Z.of_nat j) = Z.of_nat (count_in (nth j prod []) blk).
+Proof.
+  intros Hj. induction blk as [|x t IH]; intros Hin; [reflexivity|].
+  cbn [map]. rewrite PrefixProofs.count_sym_cons, count_in_cons. rewrite IH by (intros y Hy; apply Hin; right; exact Hy).
+  destruct (index_of_spec x prod (Hin x (or_introl eq_refl))) as [H1 H2]. fold q in H1.
+  destruct (nlist_eqb (nth j prod []) x) eqn:E.
+  - apply nlist_eqb_eq in E.
+    assert (index_of x prod = j).
+    { apply (proj1 (NoDup_nth prod []) (prod_nodup fb HF Hq)); [exact H1 | exact Hj | rewrite H2; symmetry; exact E]. }
+    replace (Z.of_nat (index_of x prod) =? Z.of_nat j)%Z with true by (symmetry; apply Z.eqb_eq; lia). lia.
+  - replace (Z.of_nat (index_of x prod) =? Z.of_nat j)%Z with false; [lia|].
+    symmetry. apply Z.eqb_neq. intros Ex. apply Nat2Z.inj in Ex. rewrite Ex in H2. rewrite H2 in E.
+    rewrite (proj2 (nlist_eqb_eq x x) eq_refl) in E. discriminate.
+Qed.
+
+Lemma slice_perm_spec a tc : a + tc <= T ->
+  (forall j, j < q -> count_in (nth j prod []) (slice a tc) <= mult_of j) ->
+  bounded_word cws (Z.of_nat tc) (slice_perm a tc) /\
   forall t', t' < tc -> nth (Z.to_nat (nth t' (slice_perm a tc) 0%Z)) prod [] = nth (a + t') cs [].
 Proof.
-  intros Hb Hnd. unfold slice_perm. split; [rewrite map_length; apply slice_length; exact Hb|]. split; [split|].
-  - apply NoDup_map_inj_in; [|exact Hnd].
-    intros x y Hx Hy E. apply Nat2Z.inj in E.
-    destruct (index_of_spec x prod (slice_in_prod a tc x Hb Hx)) as [_ E1].
-    destruct (index_of_spec y prod (slice_in_prod a tc y Hb Hy)) as [_ E2]. rewrite <- E1, <- E2, E. reflexivity.
-  - apply Forall_forall. intros z Hz. apply in_map_iff in Hz. destruct Hz as [x [E Hx]]. subst z.
+  intros Hb Hcnt. unfold slice_perm. split; [split; [|split]|].
+  - rewrite map_length, slice_length by exact Hb. reflexivity.
+  - unfold symbols_below. rewrite (f0_cws_length fb HF).
+    apply Forall_forall. intros z Hz. apply in_map_iff in Hz. destruct Hz as [x [E Hx]]. subst z.
     destruct (index_of_spec x prod (slice_in_prod a tc x Hb Hx)) as [H1 _]. fold q in H1. lia.
+  - intros j Hj. rewrite (f0_cws_length fb HF) in Hj.
+    rewrite (count_sym_index _ j Hj (fun x Hx => slice_in_prod a tc x Hb Hx)).
+    rewrite (f0_cws_nth fb HF j Hj). specialize (Hcnt j Hj). unfold mult_of in Hcnt. lia.
   - intros t' Ht'. rewrite nth_indep with (d' := (fun combo => Z.of_nat (index_of combo prod)) []) by (rewrite map_length, slice_length by exact Hb; exact Ht').
     rewrite (map_nth (fun combo => Z.of_nat (index_of combo prod))). rewrite Nat2Z.id.
     assert (Hin : In (nth t' (slice a tc) []) prod).
@@ -268,14 +291,14 @@ Proof.
     destruct (index_of_spec _ prod Hin) as [_ E]. rewrite E. apply slice_nth. exact Ht'.
 Qed.
 
-Lemma round_comp_spec a tc : a + tc <= T -> tc <= q -> NoDup (slice a tc) ->
+Lemma round_comp_spec a tc : a + tc <= T -> tc <= C ->
+  (forall j, j < q -> count_in (nth j prod []) (slice a tc) <= mult_of j) ->
   comp_ok fb tc (round_comp a tc) /\
   forall g, g < n -> round_row fb tc (round_comp a tc) g = map (fun t' => get_cell s g (a + t')) (seq 0 tc).
 Proof.
-  intros Hb Hle Hnd. destruct (slice_perm_spec a tc Hb Hnd) as (Hpl & Hinj & Hpn).
-  destruct (PermProofs.perm_prefix_bij q tc Hle) as [_ Hbwd].
-  destruct (Hbwd (slice_perm a tc) Hpl Hinj) as [Hrange Hcomp].
-  assert (Hperm : perm_of fb tc (perm_rank (Z.of_nat q) (slice_perm a tc)) = slice_perm a tc).
+  intros Hb Hle Hcnt. destruct (slice_perm_spec a tc Hb Hcnt) as (Hbw & Hpn).
+  destruct (p_R_spec cws (f0_cws_nonneg fb HF) tc (slice_perm a tc) ltac:(rewrite (f0_p_C fb HF); exact Hle) Hbw) as [Hrange Hcomp].
+  assert (Hperm : perm_of fb tc (p_R cws (slice_perm a tc)) = slice_perm a tc).
   { unfold perm_of. rewrite Hcomp. reflexivity. }
   (* the independent factors *)
   assert (Hz : forall g, In g ubi ->
@@ -290,7 +313,7 @@ Proof.
       apply in_seq in Ht'. subst d. destruct (nindex_spec _ _ (lvl_in_L g (a + t') Hgn ltac:(lia))) as [H _]. lia. }
     destruct (Hb2 _ Hlen Hdig) as [Hr Hc]. split; [exact Hr|]. unfold combo_of. rewrite Hc. reflexivity. }
   assert (Hok : comp_ok fb tc (round_comp a tc)).
-  { unfold round_comp, comp_ok. split; [exact Hrange|]. split; [reflexivity|].
+  { unfold round_comp, comp_ok. split; [exact Hrange|]. split; [rewrite Hcomp; discriminate|]. split; [reflexivity|].
     rewrite <- (map_id ubi) at 1. apply Forall2_map_same. intros g Hg. apply Hz. exact Hg. }
   split; [exact Hok|]. intros g Hg. apply (K_In fb HF Hq) in Hg. apply in_app_iff in Hg. destruct Hg as [Hg | Hg].
   - apply In_nth_error in Hg. destruct Hg as [i Hi].
@@ -322,44 +345,45 @@ Proof.
     symmetry. apply lvl_cell; [exact Hgn | lia].
 Qed.
 
-(** * The blocks are duplicate-free *)
+(** * The blocks respect the multiplicities *)
 Lemma v_chunks : chunks_ok (S (s_trials S0)) S0 s (f0_crossing fb) 0 = true.
 Proof.
   destruct v_parts as (_ & _ & Hc & _). unfold crossing_ok in Hc. apply andb_prop in Hc. apply Hc.
 Qed.
 
-Lemma block_nodup b : b mod q = 0 -> b < T -> NoDup (slice b (Nat.min q (T - b))).
+Lemma block_counts b : b mod C = 0 -> b < T ->
+  forall j, j < q -> count_in (nth j prod []) (slice b (Nat.min C (T - b))) <= mult_of j.
 Proof.
-  intros Hmod Hb.
-  pose proof (chunks_ok_inv S0 s (f0_crossing fb) cs ltac:(rewrite cs_length; reflexivity) cs_combo Hq
+  intros Hmod Hb j Hj.
+  pose proof (chunks_ok_inv S0 s (f0_crossing fb) cs ltac:(rewrite cs_length; reflexivity) cs_combo (f0_C_pos fb HF)
                 (S (s_trials S0)) 0 ltac:(lia) v_chunks b (Nat.le_0_l _) ltac:(rewrite Nat.sub_0_r; exact Hmod)
-                ltac:(rewrite (f0_sem_trials fb HF); exact Hb)) as [Hcnt Hmem].
-  cbn [f0_crossing c_chunk c_mult] in Hcnt, Hmem. rewrite (f0_sem_trials fb HF) in Hcnt, Hmem.
-  fold (slice b (Nat.min q (T - b))) in Hcnt, Hmem.
-  apply nodup_of_counts. intros x Hx. destruct (Hmem x Hx) as [cm [Hcm Hf]].
-  specialize (Hcnt cm Hcm). apply in_map_iff in Hcm. destruct Hcm as [ls [E _]]. subst cm. cbn [fst snd] in *. subst ls.
-  destruct (b + q <=? T); lia.
+                ltac:(rewrite (f0_sem_trials fb HF); exact Hb)) as [Hcnt _].
+  cbn [f0_crossing c_chunk c_mult] in Hcnt. rewrite (f0_sem_trials fb HF) in Hcnt.
+  fold (slice b (Nat.min C (T - b))) in Hcnt.
+  specialize (Hcnt (nth j prod [], mult_of j)
+                   ltac:(apply in_map_iff; exists (nth j prod []); split; [reflexivity | apply nth_In; exact Hj])).
+  cbn [fst snd] in Hcnt. destruct (b + C <=? T); lia.
 Qed.
 
 (** * The key *)
 Definition the_key : key :=
   {| k_pre := 0%Z;
-     k_rounds := map (fun r => round_comp (r * q) q) (seq 0 R);
-     k_left := if lo =? 0 then None else Some (round_comp (R * q) lo) |}.
+     k_rounds := map (fun r => round_comp (r * C) C) (seq 0 R);
+     k_left := if lo =? 0 then None else Some (round_comp (R * C) lo) |}.
 
-Lemma full_round_nodup r : r < R -> NoDup (slice (r * q) q).
+Lemma full_round_counts r : r < R -> forall j, j < q -> count_in (nth j prod []) (slice (r * C) C) <= mult_of j.
 Proof.
-  intros Hr. pose proof T_split as HT.
-  assert (Hb : r * q + q <= R * q) by nia.
-  pose proof (block_nodup (r * q) ltac:(apply Nat.mod_mul; lia) ltac:(lia)) as H.
-  replace (Nat.min q (T - r * q)) with q in H by lia. exact H.
+  intros Hr. pose proof T_split as HT. pose proof (f0_C_pos fb HF) as HC.
+  assert (Hb : r * C + C <= R * C) by nia.
+  pose proof (block_counts (r * C) ltac:(apply Nat.mod_mul; lia) ltac:(lia)) as H.
+  replace (Nat.min C (T - r * C)) with C in H by lia. exact H.
 Qed.
 
-Lemma leftover_nodup : lo <> 0 -> NoDup (slice (R * q) lo).
+Lemma leftover_counts : lo <> 0 -> forall j, j < q -> count_in (nth j prod []) (slice (R * C) lo) <= mult_of j.
 Proof.
-  intros Hne. pose proof T_split as HT. pose proof (f0_leftover_lt fb HF Hq) as Hlt.
-  pose proof (block_nodup (R * q) ltac:(apply Nat.mod_mul; lia) ltac:(lia)) as H.
-  replace (Nat.min q (T - R * q)) with lo in H by lia. exact H.
+  intros Hne. pose proof T_split as HT. pose proof (f0_leftover_lt fb HF) as Hlt. pose proof (f0_C_pos fb HF) as HC.
+  pose proof (block_counts (R * C) ltac:(apply Nat.mod_mul; lia) ltac:(lia)) as H.
+  replace (Nat.min C (T - R * C)) with lo in H by lia. exact H.
 Qed.
 
 Lemma the_key_ok : key_ok fb the_key.
@@ -367,9 +391,9 @@ Proof.
   pose proof T_split as HT. unfold key_ok, the_key. cbn [k_pre k_rounds k_left].
   split; [reflexivity|]. split; [rewrite map_length, seq_length; reflexivity|]. split.
   - apply Forall_forall. intros cp Hcp. apply in_map_iff in Hcp. destruct Hcp as [r [E Hr]]. apply in_seq in Hr. subst cp.
-    apply round_comp_spec; [nia | lia | apply full_round_nodup; lia].
+    apply round_comp_spec; [nia | lia | apply full_round_counts; lia].
   - destruct (lo =? 0) eqn:E; [apply Nat.eqb_eq; exact E|]. apply Nat.eqb_neq in E. split; [exact E|].
-    apply round_comp_spec; [lia | apply Nat.lt_le_incl, (f0_leftover_lt fb HF Hq) | apply leftover_nodup; exact E].
+    apply round_comp_spec; [lia | apply Nat.lt_le_incl, (f0_leftover_lt fb HF) | apply leftover_counts; exact E].
 Qed.
 
 Lemma the_key_rows g : g < n -> decoded_row fb the_key g = nth g s [].
@@ -378,17 +402,17 @@ Proof.
   unfold decoded_row, the_key. cbn [k_rounds k_left].
   assert (Hrow : nth g s [] = map (fun t => get_cell s g t) (seq 0 T)).
   { unfold get_cell. rewrite <- Hlen. symmetry. apply map_nth_seq. }
-  rewrite Hrow. assert (Hseq : seq 0 T = seq 0 (R * q) ++ seq (0 + R * q) lo) by (rewrite <- seq_app; f_equal; exact HT).
+  rewrite Hrow. assert (Hseq : seq 0 T = seq 0 (R * C) ++ seq (0 + R * C) lo) by (rewrite <- seq_app; f_equal; exact HT).
   rewrite Hseq, map_app. f_equal.
-  - rewrite (seq_blocks (fun t => get_cell s g t) q R 0). rewrite flat_map_map.
+  - rewrite (seq_blocks (fun t => get_cell s g t) C R 0). rewrite flat_map_map.
     apply flat_map_ext_in'. intros r Hr. apply in_seq in Hr.
-    destruct (round_comp_spec (r * q) q ltac:(nia) (le_n _) (full_round_nodup r ltac:(lia))) as [_ H].
+    destruct (round_comp_spec (r * C) C ltac:(nia) (le_n _) (full_round_counts r ltac:(lia))) as [_ H].
     rewrite (H g Hg). apply map_ext. intros t'. reflexivity.
   - destruct (lo =? 0) eqn:E.
     + apply Nat.eqb_eq in E. rewrite E. reflexivity.
     + apply Nat.eqb_neq in E.
-      destruct (round_comp_spec (R * q) lo ltac:(lia) (Nat.lt_le_incl _ _ (f0_leftover_lt fb HF Hq)) (leftover_nodup E)) as [_ H].
-      rewrite (H g Hg). rewrite (seq_as_map (0 + R * q) lo), map_map. apply map_ext. intros t'. reflexivity.
+      destruct (round_comp_spec (R * C) lo ltac:(lia) (Nat.lt_le_incl _ _ (f0_leftover_lt fb HF)) (leftover_counts E)) as [_ H].
+      rewrite (H g Hg). rewrite (seq_as_map (0 + R * C) lo), map_map. apply map_ext. intros t'. reflexivity.
 Qed.
 
 End F0C.
